@@ -19,14 +19,6 @@ U("c14_unescape_safe", ["C14", "C01"], "h_unescape_safe", ["C14/esc.c"], ["xml.c
   native={"repo": ["xml.c", "d_string.c"]}, min_obligations=20,
   assumptions=[NOFAIL, "a NUL sits at an index >= start+len inside the source object (call sites pass NUL-terminated attribute values with len <= strlen)"])
 
-PROPS["C14"] = {
-    "level": "other",
-    "explanation": "TODO",
-    "slice": "TODO",
-    "not_reached": "TODO",
-    "trusted_base": ["cbmc/goto-cc 6.11.0 (MiniSat2)", "lib/ds_sink.c (DString specification as ghost code; refinement proved under C19)", "CBMC built-in strncmp/tolower/strlen/strcmp models"],
-    "assumptions": [NOFAIL],
-}
 
 _XA_STUB = "xml_extract_attribute is a contract stub (C14/xattr.c): frees *attr/*value, returns the tag's attributes one per call as fresh C strings, then *attr==NULL; its re2c scanners are out of CBMC's reach"
 for _nm, _tier, _defs, _cm in (
@@ -50,3 +42,12 @@ for _nm, _h, _fn, _b in (("c14_outline_add", "h_outline_add", "mmd_outline_add_o
       callees={"mmd_print_source_opml": "recording stub (contract)", "stack_push/pop/peek/new": "body (stack.c)", "d_string_*": "ghost sink"},
       native={"repo": ["opml.c", "xml.c", "stack.c", "d_string.c"], "ldflags": _C14_LD, "defines": ["-DSB=6"]}, small=["-DSB=6"], min_obligations=30, timeout=600, cost=20,
       assumptions=[NOFAIL, _PS_STUB, "block/child tokens are contiguous siblings inside their parent (C15 tree well-formedness)", "base_header_level in 1..6"])
+
+PROPS["C14"] = {
+    "level": "other",
+    "explanation": "Escape/unescape are exact inverses: the REAL mmd_print_source_opml (and mmd_print_source_itmz) followed by the REAL print_xml_as_text reproduces every sub-span of every source of <= 2 bytes (thorough: 3) over bytes 1..255, byte for byte, and the escaped form contains no raw XML-reserved/whitespace-control byte (bounded; escape is per byte and unescape looks ahead <= 5 bytes, extension to all lengths is by induction, stated not checked). Span arithmetic, for ALL size_t offsets: mmd_outline_add_opml exports exactly the source between the end of the open heading (start of the block for the Preamble item) and the start of the next heading / end of document as the note, closes exactly the items of level >= the new one and pushes the new heading; mmd_export_header_opml exports exactly the span from the first non-marker child to the end of the last non-marker/newline/indent child as the title. Import side: print_xml_as_text is memory-safe on every 7-byte object whose span is followed by a NUL; xml_extract_named_attribute returns the value of the first attribute matching case-insensitively when no attribute name is more than 1 byte shorter than the requested name.",
+    "slice": "mmd_print_source_opml, mmd_print_source_itmz, print_xml_as_text, mmd_outline_add_opml, mmd_export_header_opml, xml_extract_named_attribute (+my_strndup)",
+    "not_reached": "OPML/ITMZ lexer+parser (re2c/lemon) and parse_opml_token_chain (nesting -> heading level); render equality after re-import; xml_extract_attribute and the four xml_scan_* re2c scanners (CBMC's unwinding of their goto-loops never converges: contract stub); itmz outline functions (same code shape as opml, not registered); xml_extract_named_attribute on the full domain FAILS (unit c14_xattr, thorough: genuine heap overflow, see report)",
+    "trusted_base": ["cbmc/goto-cc 6.11.0 (MiniSat2)", "lib/ds_sink.c (DString specification as ghost code; refinement proved under C19)", "CBMC built-in strncmp/strcmp/tolower models, lib/libc_models.c byte loops"],
+    "assumptions": [NOFAIL, _PS_STUB, _XA_STUB, "source bytes non-NUL", "block/child tokens contiguous inside their parent (C15)"],
+}
